@@ -131,6 +131,21 @@ def mutations(rng, data, known_numbers, wire_of, packable=()):
                 5: bytes(rng.getrandbits(8) for _ in range(4)), 2: b"\x03abc"}[wt]
         pos = rng.choice(bounds)
         yield ("mismatch", (data[:pos], tag + body, data[pos:]), "isolate")
+    # a cut INSIDE a record the class does not know, or knows under another wire type (such records go to the unknown
+    # fields verbatim and never reach struct.unpack / the typed decoders: a shortened one must be rejected by the framing)
+    free = [k for k in (2046, 1000, 999, 19, 18, 14, 13, 12, 11, 9, 8, 6) if k not in known_numbers]
+    for _ in range(6):
+        if rng.random() < 0.5 and free:
+            num, wt = rng.choice(free), rng.choice([0, 1, 2, 5])
+        else:
+            num = rng.choice(sorted(known_numbers))
+            wt = rng.choice([w for w in (0, 1, 2, 5) if w not in wire_of[num]])
+        body = {0: WS.enc_varint((1 << rng.choice([14, 35, 63])) | rng.getrandbits(7)), 1: bytes(rng.getrandbits(8) for _ in range(8)),
+                5: bytes(rng.getrandbits(8) for _ in range(4)), 2: b"\x05abcde"}[wt]
+        rec = WS.enc_varint(num << 3 | wt) + body
+        pos = rng.choice(bounds)
+        cut = rng.randrange(1, len(rec))
+        yield ("truncate-inside-unknown", data[:pos] + rec[:cut], "reject")
     # a packed payload that does not consist of whole elements (fixed width: length not a multiple of
     # the width; varint: ends inside an element): decoding it into fewer elements would be a mis-decode
     for num, width in packable:
